@@ -31,7 +31,7 @@ CLAIMED = {
     "C06": C("proptest: generated signal lists x headers (subset, permutation, split pairs) vs closed-form binding oracle",
              "Every row's inputs/outputs compared entry by entry with closed formulas (list order, by-name binding, defaults, X for omitted expected); changed-flag implication checked against the driver log."),
     "C09": C("proptest token soup + mutated valid programs; libFuzzer target parse_bytes in the thorough tier; totality + span-validity oracle",
-             "Any text parses to Ok or Err without panic; every error span lies in the source on char boundaries and renders with miette.",
+             "Any text parses to Ok or Err without panic; every error span lies in the source on char boundaries; formatting the error with its causes and rendering it with miette's graphical handler must not panic.",
              "Inputs bounded in nesting depth (native stack exhaustion is outside the statement); a hang is reported as inconclusive (exit 2)."),
     "C10": C("proptest chaos profile + libFuzzer target run_structured (thorough); no-panic oracle + planted unconditionally executed hazards that must surface as an error item",
              "Accepted tests with every hazard source (division by zero, unassigned variables, empty random ranges, signExt, boundary arithmetic, widths to 64, shared columns, Z/X answers, driver errors) never panic; in half of the cases a top-level statement that cannot be evaluated whatever the values are is planted, and a run that reaches the end of iteration must contain an error item.",
@@ -39,13 +39,13 @@ CLAIMED = {
     "C11": C("proptest: fitted signal list + 0-2 list edits vs independent static-analysis oracle (iff), accepted tests iterated",
              "with_signals verdict compared with the four clauses of the statement evaluated on the model by an independent scope analysis; accepted tests are iterated to the end with an honest driver."),
     "C12": C("proptest: valid generated program + one of 19 grammar-breaking edit kinds, each with and without final newline; must-reject oracle",
-             "Each edit kind is invalid by a grammar argument written next to its implementation; both newline variants must be rejected."),
-    "C13": C("proptest fault injection: failure at every call index / six deviation kinds, metamorphic against the fault-free run",
+             "Each edit kind is invalid by a grammar argument written next to its implementation; both newline variants must be rejected, by str::parse and (one text in four) as the source of a test in a .dig document loaded with load_test; bits widths above 64 also in headers of 66-90 columns."),
+    "C13": C("proptest fault injection: failure at every call index / nine deviation kinds (also repeated at a later checked row), metamorphic against the fault-free run",
              "Driver errors reach the caller as that very error at exactly the failing item; layout deviations make that item an error; earlier items equal the fault-free run."),
     "C14": C("proptest: tagged rows; declared expressions evaluated by an independent evaluator over the recording driver's answers of the same call (self-consistency, no reference run)",
              "Per checked row: every virtual entry is 64 bits wide and shows the declared expression evaluated over the answers of that very call with no variables; a Z/X read => the item must be an error item; expected value = the literal in its column or X; the caller keeps iterating after error items."),
     "C15": C("proptest: repeated parses, interleaved iterators by generated schedules, static-vs-dynamic metamorphic comparison",
-             "Parse/bind equality across 2-8 parses, 1-4 interleaved iterators vs a sequential run, try_iter_static gate vs independent static analysis, static rows vs dynamic rows under two scripts.",
+             "Parse/bind equality across 2-8 parses, 1-4 interleaved iterators vs a sequential run, a clone and a used TestCase vs a freshly bound one under a driver with another output order, try_iter_static gate vs independent static analysis, static rows vs dynamic rows under two scripts.",
              "One open known finding (unassigned variable named like an output) is stepped over, see known_findings.json."),
     "C16": C("proptest: generated circuit descriptions rendered as .dig XML + corruptions of them and of the fixtures; libFuzzer target dig_bytes (thorough)",
              "Totality on any text; interface recovery (labelled pins as a multiset, bidirectional inference iff stated condition), tests verbatim in order, load_test / load_test_by_name equations."),
